@@ -180,3 +180,92 @@ def _named(nodes, out):
         if nd['name']:
             out.append(nd)
         _named(nd['children'], out)
+
+
+# ---------------------------------------------------------------------------------------------
+# round 5: every *spelling* of an attribute without a value, in every markup syntax (see notes/C13.md, "Round 5")
+#
+# An abbreviation can say "this attribute has no value" in five ways: `[t]`, `[t=]`, `[t=""]`, `[t='']`, `[t={}]`.
+# The statement speaks of "every empty attribute value", not of how the emptiness was written, so each of them is one
+# tabstop.  A node of the trees below has, next to the usual keys, 'written': [(name, value|None, form)] -- what
+# render_forms() prints -- while 'attrs' is the model the oracle reads: the attributes of the element in document order
+# (defaults of a snippet element first, see EMPTY_DEFAULTS).
+
+EMPTY_FORMS = ['bare', 'eq', 'dq', 'sq', 'expr']
+_FORM_TEXT = {'bare': '[%s]', 'eq': '[%s=]', 'dq': '[%s=""]', 'sq': "[%s='']", 'expr': '[%s={}]'}
+
+# Emmet's documented html snippets that only add attributes without a value (cheat sheet: a -> <a href="">, img -> <img src="" alt="">,
+# form -> <form action="">, map -> <map name="">); written by hand.  (label -> <label for=""> is left out: jsx prints `for` under another name.)
+EMPTY_DEFAULTS = {'a': ['href'], 'form': ['action'], 'map': ['name']}
+EMPTY_DEFAULTS_VOID = {'img': ['src', 'alt']}
+
+
+def empty_form_tree(rng, indent_syntax):
+    """a random tree without explicit fields in which every attribute without a value is written in one of EMPTY_FORMS;
+    some valued attributes are emptied, some elements become snippet elements (whose default attributes the abbreviation
+    may repeat, again in any form)"""
+    while True:
+        nodes = gen_tree(rng, depth=rng.randint(1, 4), width=rng.randint(1, 3), fields=False, text_nodes=not indent_syntax)
+        if _empty_forms(rng, nodes) > 0:
+            return nodes
+
+
+def _empty_forms(rng, nodes):
+    n = 0
+    for nd in nodes:
+        if nd['name']:
+            written = []
+            for an, av in nd['attrs']:
+                if an not in ('id', 'class') and av is not None and rng.random() < 0.4:
+                    av = None
+                written.append([an, av, rng.choice(EMPTY_FORMS) if av is None else None])
+            if not written and rng.random() < 0.3:
+                written.append([rng.choice(ATTR_NAMES), None, rng.choice(EMPTY_FORMS)])
+            defaults = []
+            r = rng.random()
+            if nd['selfclose'] and nd['count'] == 1 and r < 0.5:
+                nd['name'] = rng.choice(sorted(EMPTY_DEFAULTS_VOID))
+                defaults = EMPTY_DEFAULTS_VOID[nd['name']]
+                nd['selfclose'] = 'snippet'           # self-closing by its snippet: no `/` is written
+            elif not nd['selfclose'] and r < 0.25:
+                nd['name'] = rng.choice(sorted(EMPTY_DEFAULTS))
+                defaults = EMPTY_DEFAULTS[nd['name']]
+            for d in defaults:
+                if rng.random() < 0.5:
+                    # the abbreviation repeats the default attribute, at a random place among the written ones
+                    written.insert(rng.randint(0, len(written)), [d, None, rng.choice(EMPTY_FORMS)])
+            # an attribute of the snippet keeps its place, the others follow in the order written
+            nd['attrs'] = [[d, None] for d in defaults] + [[an, av] for an, av, _ in written if an not in defaults]
+            nd['written'] = written
+            n += len([1 for w in written if w[1] is None])
+        n += _empty_forms(rng, nd['children'])
+    return n
+
+
+def render_forms(nodes):
+    parts = []
+    for nd in nodes:
+        s = nd['name']
+        for an, av, form in nd.get('written', []):
+            if an == 'id' and av is not None:
+                s += '#' + av
+            elif an == 'class' and av is not None:
+                s += '.' + av
+            elif av is None:
+                s += _FORM_TEXT[form] % an
+            else:
+                s += '[%s="%s"]' % (an, av)
+        if nd['text'] is not None:
+            s += '{%s}' % nd['text']
+        if nd['selfclose'] is True:
+            s += '/'
+        if nd['count'] != 1:
+            s += '*%d' % nd['count']
+        if nd['children']:
+            inner = render_forms(nd['children'])
+            if nd['name'] == '' or len(nodes) > 1:
+                s = '(%s>%s)' % (s, inner)
+            else:
+                s = '%s>%s' % (s, inner)
+        parts.append(s)
+    return '+'.join(parts)
